@@ -374,6 +374,10 @@ fn lib_print(r: &Resolved) -> Option<Vec<u8>> {
                 Kind::PrintIr => Some(format!("{:?}\n", p).into_bytes()),
                 Kind::PrintBc => Some(format!("{:?}\n", bc::CodeGen::translate(&p, 2, true)).into_bytes()),
                 Kind::PrintJitBc => Some(format!("{:?}\n", bc::CodeGen::translate(&p, 12, false)).into_bytes()),
+                Kind::PrintMc => {
+                    use hpbf::exec::{BaseJitCompiler, Executor};
+                    Some(BaseJitCompiler::<$t>::create(&r.code, r.opt).ok()?.print_mc(r.limit.is_some(), r.safe))
+                }
                 _ => None,
             }
         }};
@@ -411,6 +415,9 @@ pub fn evaluate(c: &CliCheck) -> Verdict {
         Help,
         Exact(Vec<u8>),
         NonEmptyNoInput,
+        /// machine code: equal to the library's rendering except inside the 8-byte immediates of
+        /// `mov r64, imm64` (absolute addresses of the runtime's callbacks differ per process)
+        McLike(Vec<u8>),
         /// the pre-growth of --static cannot be served: allocation-failure abort, no output
         AbortBeforeRunning,
         Skip(&'static str),
@@ -431,7 +438,10 @@ pub fn evaluate(c: &CliCheck) -> Verdict {
                 Some(b) => Want::Exact(b),
                 None => Want::Skip("library could not render"),
             },
-            Kind::PrintMc => Want::NonEmptyNoInput,
+            Kind::PrintMc => match lib_print(&r) {
+                Some(b) => Want::McLike(b),
+                None => Want::NonEmptyNoInput,
+            },
             Kind::Exec(_) if c.as_limit_mb.map(|m| m <= 400).unwrap_or(false) && !r.safe && r.limit.is_none() => Want::AbortBeforeRunning,
             Kind::Exec(backend) => {
                 let rr = refmodel::run(
@@ -579,6 +589,30 @@ pub fn evaluate(c: &CliCheck) -> Verdict {
                 v.fail("print-option-consumed-input", 0, format!("a print option left the stdin offset at {}", ran.stdin_offset));
             }
         }
+        Want::McLike(bytes) => {
+            v.bump("expect_print_mc");
+            if ran.code != Some(0) || out.is_empty() {
+                v.fail("wrong-exit-status", 0, format!("--print-jit-mc: status {:?}, {} bytes", ran.code, out.len()));
+            } else if let Some(at) = mc_differs(&out, &bytes) {
+                v.fail(
+                    "wrong-machine-code",
+                    at,
+                    format!(
+                        "--print-jit-mc differs from the library's machine code for the resolved configuration (i{} -O{} limited {} safe {}) at byte {} outside any 64-bit immediate: got {} bytes, want {} bytes",
+                        r.bits,
+                        r.opt,
+                        r.limit.is_some(),
+                        r.safe,
+                        at,
+                        out.len(),
+                        bytes.len()
+                    ),
+                );
+            }
+            if ran.stdin_offset != 0 {
+                v.fail("print-option-consumed-input", 0, format!("a print option left the stdin offset at {}", ran.stdin_offset));
+            }
+        }
         Want::NonEmptyNoInput => {
             v.bump("expect_print");
             if ran.code != Some(0) || out.is_empty() {
@@ -591,6 +625,27 @@ pub fn evaluate(c: &CliCheck) -> Verdict {
         Want::Skip(_) | Want::AbortBeforeRunning => {}
     }
     v
+}
+
+/// First position at which two renderings of machine code differ outside the immediate of a
+/// `REX.W B8+r imm64` instruction present at the same place in both (None: alike).
+fn mc_differs(a: &[u8], b: &[u8]) -> Option<usize> {
+    if a.len() != b.len() {
+        return Some(a.len().min(b.len()));
+    }
+    let is_mov = |x: &[u8], p: usize| p >= 2 && (x[p - 2] == 0x48 || x[p - 2] == 0x49) && (x[p - 1] & 0xf8) == 0xb8;
+    let mut i = 0;
+    while i < a.len() {
+        if a[i] == b[i] {
+            i += 1;
+            continue;
+        }
+        match (i.saturating_sub(7)..=i).rev().find(|&p| is_mov(a, p) && is_mov(b, p) && p + 8 <= a.len()) {
+            Some(p) => i = p + 8,
+            None => return Some(i),
+        }
+    }
+    None
 }
 
 /// A program whose output reveals the cell width: builds 2^k by repeated multiplication
